@@ -11,6 +11,9 @@
 import RbModel.Lemmas.BufZipper
 import RbModel.Lemmas.GsubSingleSpec
 import RbModel.Lemmas.GsubAlternateSpec
+import RbModel.Lemmas.GsubMultiSpec
+import RbModel.Lemmas.GsubMultiDel
+import RbModel.Lemmas.GsubMultiMixed
 
 namespace RbModel.Buf
 
@@ -359,6 +362,316 @@ def exAltCtx : Ctx := { font := exFont, lookupMask := 48, buf := exAltBuf }
 example : exAltLookup.subtables.all Subtable.isAlternate = true := by decide
 example : (match applyString exAltCtx exAltLookup 3 with
     | .ok c' => (c'.buf.info.take c'.buf.len).map (·.gid) == [8, 7, 1]
+    | .error _ => false) = true := by decide
+
+end RbModel.Gsub
+
+/-! ## Part 4: multiple substitution (GSUB type 2) — the string grows
+
+Same refinement for lookups all of whose subtables are multiple substitutions.  Unlike Parts 2 and 3 the pass is not in
+place: `Sequence::apply` puts out one copy of the current glyph per substitute (`output_glyph`, after `make_room_for`
+has separated the out-buffer from the in-buffer), then skips the current glyph; `sync` swaps the two buffers at the end.
+The proof invariant is over the pair (out-part `out[0..out_len)`, in-part `info[idx..len)`), Lemmas/GsubMulti*.lean.
+
+Guards of the real code on this path, and the hypotheses they become:
+* `make_room_for` → `ensure(out_len + n)` refuses (buffer marked unsuccessful, result discarded by `sync`) iff
+  `out_len + n ≥ len` and `out_len + n > max_len`.  `out_len + n` never exceeds the length of the final string, so
+  `hbudget` (final string ≤ `max_len`) is the guard; for a growing pass it is also necessary (the final `sync` asks for
+  exactly that size).  `max_ops` is not consulted on this path (it is charged by `recurse` / `apply_lookup` only).
+* `hout`: the `pos` Vec (which holds the separate out-buffer) is as long as the `info` Vec — an invariant of buffer.rs
+  (`ensure` resizes both); Parts 2/3 never touch `pos` and do not need it.
+* `hseq`: no empty sequence.  OpenType forbids them ("glyphCount should always be greater than 0"); the crate then
+  deletes the glyph and merges its cluster into a neighbour (`delete_glyph`), which the specification — it just removes
+  the glyph — does not describe: see `C06_multiple_delete_partial` below for what holds there. -/
+namespace RbModel.Gsub
+open RbModel RbModel.Buf RbModel.Spec.Subst
+
+theorem toG_eq_projG : toG = projG := rfl
+
+/-- **C06, multiple substitution**: for every font, every forward lookup made of multiple-substitution subtables with
+    non-empty sequences, every lookup mask and every well-formed buffer whose final string fits the length budget, the
+    streaming interpreter succeeds and yields exactly the glyph string (ids, clusters, masks) of the OpenType model. -/
+theorem C06_multiple_subst_refines_spec (l : Lookup) (hall : l.subtables.all Subtable.isMultiple = true)
+    (hseq : SeqsNonempty l.subtables)
+    (c : Ctx) (fuel level : Nat)
+    (hsu : c.buf.successful = true) (hlen : c.buf.len ≤ c.buf.info.length)
+    (hout : c.buf.out.length = c.buf.info.length) (hf : c.buf.len ≤ fuel)
+    (hgid : ∀ x ∈ c.buf.info.take c.buf.len, x.gid < 65536)
+    (hsync : ∀ x ∈ c.buf.info.take c.buf.len,
+      checkGlyphProperty c.font x l.props = !ignored c.font l.props (toG x))
+    (hbudget : (applyLookupFwd c.font level l c.lookupMask fuel ((c.buf.info.take c.buf.len).map toG) 0).length
+      ≤ c.buf.maxLen) :
+    ∃ c', applyString c l fuel = .ok c' ∧ c'.buf.successful = true ∧ c'.buf.len ≤ c'.buf.info.length ∧
+      (c'.buf.info.take c'.buf.len).map toG
+        = applyLookupFwd c.font level l c.lookupMask fuel ((c.buf.info.take c.buf.len).map toG) 0 := by
+  -- the specification side in closed form
+  have hspec : applyLookupFwd c.font level l c.lookupMask fuel ((c.buf.info.take c.buf.len).map toG) 0
+      = (c.buf.info.take c.buf.len).flatMap
+          (stepL c.font c.lookupMask l.props (fun x => multiSeq? l.subtables (x.gid % 65536))) := by
+    rw [applyLookupFwd_list c.font level l c.lookupMask (fun g => multiSeq? l.subtables g.gid) (fun _ => True)
+          (fun gs i g hg _ => firstSubtable_multiple c.font level l.props c.lookupMask gs i g hg l.subtables hall)
+          fuel _ 0 (fun _ _ _ _ => trivial) (by simp; omega) (Nat.zero_le _)]
+    simp only [List.take_zero, List.nil_append, List.drop_zero, List.flatMap_map]
+    symm
+    apply flatMap_congr_mem
+    intro x hx
+    rw [toG_eq_projG]
+    apply stepL_eq_specStepL
+    · show multiSeq? l.subtables (x.gid % 65536) = multiSeq? l.subtables x.gid
+      rw [Nat.mod_eq_of_lt (hgid x hx)]
+    · exact hsync x hx
+  rw [hspec] at hbudget ⊢
+  obtain ⟨c', hrun, hsu', hle', hres⟩ :=
+    applyString_list l (fun x => multiSeq? l.subtables (x.gid % 65536)) (multiple_not_reverse l hall) c false
+      (actsAsL_multiple l hall c.lookupMask) (fun x ss h => multiSeq?_ne_nil l.subtables hseq _ ss h)
+      C06_gen_buffer_variants.2 (fun h => by cases h) fuel hsu hlen hout hf hbudget
+  exact ⟨c', hrun, hsu', hle', by rw [toG_eq_projG]; exact hres⟩
+
+/-! non-vacuity: "ignore marks" lookup; base 1 → 11 2 11 (three glyphs, the middle one a mark), glyph 3 → 5; the mark in the
+    text is skipped, the marks put in by the substitution are not visited again; four glyphs become eight -/
+def exMultiLookup : Lookup := { props := 0x0008, subtables := [.multiple [1, 3] [[11, 2, 11], [5]]] }
+def exMultiCtx : Ctx :=
+  { font := exFont, lookupMask := 1,
+    buf := { info := [⟨1,1,0,GP.BASE_GLYPH,0⟩, ⟨2,1,1,GP.MARK,0⟩, ⟨1,1,2,GP.BASE_GLYPH,0⟩, ⟨3,1,3,0,0⟩],
+             out := [{}, {}, {}, {}], len := 4 } }
+
+example : exMultiLookup.subtables.all Subtable.isMultiple = true := by decide
+example : SeqsNonempty exMultiLookup.subtables := by
+  intro st hst cov seqs he ss hss
+  simp [exMultiLookup] at hst
+  subst hst
+  cases he
+  simp at hss
+  rcases hss with h | h <;> subst h <;> simp
+example : exMultiCtx.buf.out.length = exMultiCtx.buf.info.length := by decide
+example : ∀ x ∈ exMultiCtx.buf.info.take exMultiCtx.buf.len, x.gid < 65536 := by decide
+example : ∀ x ∈ exMultiCtx.buf.info.take exMultiCtx.buf.len,
+    checkGlyphProperty exMultiCtx.font x exMultiLookup.props = !ignored exMultiCtx.font exMultiLookup.props (toG x) := by decide
+example : (applyLookupFwd exMultiCtx.font 0 exMultiLookup exMultiCtx.lookupMask 4
+    ((exMultiCtx.buf.info.take exMultiCtx.buf.len).map toG) 0).length ≤ exMultiCtx.buf.maxLen := by decide
+example : (match applyString exMultiCtx exMultiLookup 4 with
+    | .ok c' => (c'.buf.info.take c'.buf.len).map (fun x => (x.gid, x.cluster)) ==
+                  [(11, 0), (2, 0), (11, 0), (2, 1), (11, 2), (2, 2), (11, 2), (5, 3)]
+    | .error _ => false) = true := by decide
+
+/-- The source has the HarfBuzz guard in the "extend start" loop of `merge_clusters` (`delete_glyph` with an empty
+    out-buffer goes through it). -/
+theorem C06_gen_extend_start_guard : Gen.Buf.extendStartGuard = 1 := by decide
+
+/-- **C06, multiple substitution with empty sequences allowed (partial: clusters and glyph flags are left out).**
+    An empty sequence makes the crate delete the glyph (`delete_glyph`: HarfBuzz follows Uniscribe here) and merge its
+    cluster into a neighbour, rewriting cluster values and `glyph_flag` bits of OTHER glyphs; the specification removes the
+    glyph and touches nothing else, so the two strings differ in clusters (example below) and the full statement of
+    `C06_multiple_subst_refines_spec` is false there.  What holds for every sequence length: the pass succeeds, and glyph
+    ids and feature bits (the mask outside `glyph_flag::DEFINED`) are exactly those of the specification.
+    `hlmf`: the lookup mask is made of feature bits (the feature map never allocates the three glyph-flag bits). -/
+theorem C06_multiple_delete_partial (l : Lookup) (hall : l.subtables.all Subtable.isMultiple = true)
+    (c : Ctx) (fuel level : Nat)
+    (hlmf : c.lookupMask &&& (U32MAX - Flag.DEFINED) = c.lookupMask)
+    (hsu : c.buf.successful = true) (hlen : c.buf.len ≤ c.buf.info.length)
+    (hout : c.buf.out.length = c.buf.info.length) (hf : c.buf.len ≤ fuel)
+    (hgid : ∀ x ∈ c.buf.info.take c.buf.len, x.gid < 65536)
+    (hsync : ∀ x ∈ c.buf.info.take c.buf.len,
+      checkGlyphProperty c.font x l.props = !ignored c.font l.props (toG x))
+    (hbudget : (applyLookupFwd c.font level l c.lookupMask fuel ((c.buf.info.take c.buf.len).map toG) 0).length
+      ≤ c.buf.maxLen) :
+    ∃ c', applyString c l fuel = .ok c' ∧ c'.buf.successful = true ∧ c'.buf.len ≤ c'.buf.info.length ∧
+      (c'.buf.info.take c'.buf.len).map (fun x => (x.gid, featBits x.mask))
+        = (applyLookupFwd c.font level l c.lookupMask fuel ((c.buf.info.take c.buf.len).map toG) 0).map
+            (fun g => (g.gid, featBits g.mask)) := by
+  have hspec : (applyLookupFwd c.font level l c.lookupMask fuel ((c.buf.info.take c.buf.len).map toG) 0).map piG
+      = (c.buf.info.take c.buf.len).flatMap
+          (stepF c.font c.lookupMask l.props (fun x => multiSeq? l.subtables (x.gid % 65536))) := by
+    rw [applyLookupFwd_list c.font level l c.lookupMask (fun g => multiSeq? l.subtables g.gid) (fun _ => True)
+          (fun gs i g hg _ => firstSubtable_multiple c.font level l.props c.lookupMask gs i g hg l.subtables hall)
+          fuel _ 0 (fun _ _ _ _ => trivial) (by simp; omega) (Nat.zero_le _)]
+    simp only [List.take_zero, List.nil_append, List.drop_zero, List.flatMap_map, List.map_flatMap]
+    symm
+    apply flatMap_congr_mem
+    intro x hx
+    rw [toG_eq_projG]
+    apply stepF_eq_specStepL
+    · show multiSeq? l.subtables (x.gid % 65536) = multiSeq? l.subtables x.gid
+      rw [Nat.mod_eq_of_lt (hgid x hx)]
+    · exact hsync x hx
+  have hbudget' : ((c.buf.info.take c.buf.len).flatMap
+      (stepF c.font c.lookupMask l.props (fun x => multiSeq? l.subtables (x.gid % 65536)))).length ≤ c.buf.maxLen := by
+    rw [← hspec]; simpa using hbudget
+  obtain ⟨c', hrun, hsu', hle', hres⟩ :=
+    applyString_feat l (fun x => multiSeq? l.subtables (x.gid % 65536)) (multiple_not_reverse l hall) c false
+      (actsAsL_multiple l hall c.lookupMask) hlmf (fun x y h => by simp only [h])
+      C06_gen_buffer_variants.2 C06_gen_extend_start_guard (fun h => by cases h) fuel hsu hlen hout hf hbudget'
+  refine ⟨c', hrun, hsu', hle', ?_⟩
+  exact hres.trans hspec.symm
+
+/-! non-vacuity, and the difference that makes this theorem partial.  First text: glyph 2 (cluster 1) is deleted between
+    glyph 1 (cluster 0, grows to 11 12) and glyph 3 (cluster 2); its cluster is larger than its predecessor's, nothing is
+    relabelled.  Second text: the deleted glyph comes FIRST and `delete_glyph` gives its cluster 0 to the next glyph
+    (`merge_clusters`), where the specification keeps cluster 1. -/
+def exDelLookup : Lookup := { props := 0, subtables := [.multiple [1, 2] [[11, 12], []]] }
+def exDelCtx : Ctx :=
+  { font := exFont, lookupMask := 8,
+    buf := { info := [⟨1,8,0,GP.BASE_GLYPH,0⟩, ⟨2,8,1,0,0⟩, ⟨3,8,2,0,0⟩], out := [{}, {}, {}], len := 3 } }
+def exDelCtx2 : Ctx :=
+  { font := exFont, lookupMask := 8,
+    buf := { info := [⟨2,8,0,0,0⟩, ⟨3,8,1,0,0⟩], out := [{}, {}], len := 2 } }
+
+example : exDelLookup.subtables.all Subtable.isMultiple = true := by decide
+example : exDelCtx.lookupMask &&& (U32MAX - Flag.DEFINED) = exDelCtx.lookupMask := by decide
+example : ∀ x ∈ exDelCtx.buf.info.take exDelCtx.buf.len,
+    checkGlyphProperty exDelCtx.font x exDelLookup.props = !ignored exDelCtx.font exDelLookup.props (toG x) := by decide
+example : (match applyString exDelCtx exDelLookup 3 with
+    | .ok c' => (c'.buf.info.take c'.buf.len).map (fun x => (x.gid, x.cluster)) == [(11, 0), (12, 0), (3, 2)]
+    | .error _ => false) = true := by decide
+/-- the crate's cluster merge: the glyph after a deleted first glyph takes over cluster 0 … -/
+example : (match applyString exDelCtx2 exDelLookup 2 with
+    | .ok c' => (c'.buf.info.take c'.buf.len).map (fun x => (x.gid, x.cluster)) == [(3, 0)]
+    | .error _ => false) = true := by decide
+/-- … which the specification does not describe (it keeps cluster 1) -/
+example : (applyLookupFwd exDelCtx2.font 0 exDelLookup 8 2 ((exDelCtx2.buf.info.take 2).map toG) 0).map
+    (fun g => (g.gid, g.cluster)) = [(3, 1)] := by decide
+
+/-- **C06, mixed single / multiple / alternate lookups** (the generic scheme "replace the current glyph by a list"; it
+    contains Parts 2, 3 and `C06_multiple_subst_refines_spec` as special cases, with the union of their hypotheses): for a
+    lookup whose subtables are single, multiple (non-empty sequences) or alternate substitutions in any order, the first
+    subtable that applies decides, exactly as in the OpenType model. -/
+theorem C06_simple_subst_refines_spec (l : Lookup) (hall : l.subtables.all Subtable.isSimple = true)
+    (hseq : SeqsNonempty l.subtables) (hshort : AltSetsShort l.subtables)
+    (c : Ctx) (fuel level : Nat) (hrnd : c.random = false) (hlm : c.lookupMask < 2 ^ 32)
+    (hsu : c.buf.successful = true) (hlen : c.buf.len ≤ c.buf.info.length)
+    (hout : c.buf.out.length = c.buf.info.length) (hf : c.buf.len ≤ fuel)
+    (hgid : ∀ x ∈ c.buf.info.take c.buf.len, x.gid < 65536)
+    (hsync : ∀ x ∈ c.buf.info.take c.buf.len,
+      checkGlyphProperty c.font x l.props = !ignored c.font l.props (toG x))
+    (hbudget : (applyLookupFwd c.font level l c.lookupMask fuel ((c.buf.info.take c.buf.len).map toG) 0).length
+      ≤ c.buf.maxLen) :
+    ∃ c', applyString c l fuel = .ok c' ∧ c'.buf.successful = true ∧ c'.buf.len ≤ c'.buf.info.length ∧
+      (c'.buf.info.take c'.buf.len).map toG
+        = applyLookupFwd c.font level l c.lookupMask fuel ((c.buf.info.take c.buf.len).map toG) 0 := by
+  have hspec : applyLookupFwd c.font level l c.lookupMask fuel ((c.buf.info.take c.buf.len).map toG) 0
+      = (c.buf.info.take c.buf.len).flatMap
+          (stepL c.font c.lookupMask l.props (simpleSeq? c.lookupMask l.subtables)) := by
+    rw [applyLookupFwd_list c.font level l c.lookupMask (simpleSeqG? c.lookupMask l.subtables) (fun g => g.gid < 65536)
+          (fun gs i g hg hgid' =>
+            firstSubtable_simple c.font level l.props c.lookupMask hlm gs i g hg hgid' l.subtables hall hshort)
+          fuel _ 0
+          (by
+            intro q g _ hg
+            have hmem : g ∈ (c.buf.info.take c.buf.len).map toG := List.mem_of_getElem? hg
+            obtain ⟨x, hx, rfl⟩ := List.mem_map.mp hmem
+            exact hgid x hx)
+          (by simp; omega) (Nat.zero_le _)]
+    simp only [List.take_zero, List.nil_append, List.drop_zero, List.flatMap_map]
+    symm
+    apply flatMap_congr_mem
+    intro x hx
+    rw [toG_eq_projG]
+    exact stepL_eq_specStepL c.font l c.lookupMask _ (simpleSeqG? c.lookupMask l.subtables) x rfl (hsync x hx)
+  rw [hspec] at hbudget ⊢
+  obtain ⟨c', hrun, hsu', hle', hres⟩ :=
+    applyString_list l (simpleSeq? c.lookupMask l.subtables) (simple_not_reverse l hall) c true
+      (actsAsL_simple l hall c.lookupMask)
+      (fun x ss h => simpleSeqGM_ne_nil c.lookupMask l.subtables hseq _ _ ss h)
+      C06_gen_buffer_variants.2 (fun _ => hrnd) fuel hsu hlen hout hf hbudget
+  exact ⟨c', hrun, hsu', hle', by rw [toG_eq_projG]; exact hres⟩
+
+/-! non-vacuity: one lookup with a single, a multiple and an alternate subtable; feature value 2 in mask bits 4-5 -/
+def exMixLookup : Lookup :=
+  { props := 0, subtables := [.single1 [1] 10, .multiple [1, 3] [[9], [7, 8, 7]], .alternate [2, 3] [[5, 6], [4]]] }
+def exMixCtx : Ctx :=
+  { font := exFont, lookupMask := 48,
+    buf := { info := [⟨1,0x20,0,GP.BASE_GLYPH,0⟩, ⟨2,0x20,1,GP.MARK,0⟩, ⟨3,0x10,2,0,0⟩, ⟨3,0,3,0,0⟩],
+             out := [{}, {}, {}, {}], len := 4 } }
+example : exMixLookup.subtables.all Subtable.isSimple = true := by decide
+example : ∀ x ∈ exMixCtx.buf.info.take exMixCtx.buf.len,
+    checkGlyphProperty exMixCtx.font x exMixLookup.props = !ignored exMixCtx.font exMixLookup.props (toG x) := by decide
+example : (match applyString exMixCtx exMixLookup 4 with
+    | .ok c' => (c'.buf.info.take c'.buf.len).map (fun x => (x.gid, x.cluster)) ==
+                  [(11, 0), (6, 1), (7, 2), (8, 2), (7, 2), (3, 3)]
+    | .error _ => false) = true := by decide
+
+
+/-- **C06, one application of a multiple-substitution subtable** at the current glyph of any in/out buffer state is the
+    specification's `applySimple` on the projected string `toG (out[0..out_len) ++ info[idx..len))` at position `out_len`:
+    same decision (apply / decline), same new string, and the specification's resume index is the new `out_len`. -/
+theorem C06_multiple_step_refines_spec (recurse : Ctx → Nat → M (Ctx × Bool)) (full : Bool) (c : Ctx)
+    (cov : Cov) (seqs : List (List Nat)) (x : Info) (R : List Info) (alt : Nat)
+    (hinv : Inv c.buf) (hin : inP c.buf = x :: R) (hgid : x.gid < 65536)
+    (hseq : ∀ ss ∈ seqs, ss ≠ []) (hb : ∀ ss ∈ seqs, c.buf.outLen + ss.length ≤ c.buf.maxLen) :
+    match applySimple (.multiple cov seqs) ((outP c.buf ++ inP c.buf).map toG) c.buf.outLen alt with
+    | none => applySubtable recurse full c (.multiple cov seqs) = .ok (c, false)
+    | some (gs', nxt) =>
+      ∃ b', applySubtable recurse full c (.multiple cov seqs) = .ok ({ c with buf := b' }, true) ∧ Inv b' ∧
+        b'.successful = c.buf.successful ∧ (outP b' ++ inP b').map toG = gs' ∧ b'.outLen = nxt := by
+  obtain ⟨hcur, hx⟩ := inP_head c.buf hinv x R hin
+  have hget : Mem.get c.buf.info c.buf.idx = .ok x := by unfold Mem.get; rw [hx]; rfl
+  have hol := outP_length c.buf hinv
+  have hgs : ((outP c.buf ++ inP c.buf).map toG)[c.buf.outLen]? = some (toG x) := by
+    rw [hin, List.getElem?_map, List.getElem?_append_right (by omega), hol]
+    simp
+  have hxg : (toG x).gid = x.gid := rfl
+  simp only [applySimple, hgs, hxg]
+  simp only [applySubtable, bind, Except.bind, hget, Nat.mod_eq_of_lt hgid]
+  cases hc : cov.index x.gid with
+  | none => simp only [Option.bind, pure, Except.pure]
+  | some k =>
+    cases hs : seqs[k]? with
+    | none => simp only [Option.bind, hs, pure, Except.pure]
+    | some ss =>
+      have hmem : ss ∈ seqs := List.mem_of_getElem? hs
+      obtain ⟨b', outs, hrun, hinv', ho, hi, hm, hsu, _⟩ :=
+        applySeq_spec C06_gen_buffer_variants.2 c ss (hseq ss hmem) x R hinv hin (hb ss hmem)
+      have hol' : b'.outLen = c.buf.outLen + ss.length := by
+        have h1 := outP_length b' hinv'
+        rw [ho] at h1
+        have h2 : outs.length = ss.length := by
+          have := congrArg List.length hm
+          simpa using this
+        simp [hol, h2] at h1
+        omega
+      simp only [Option.bind, hs, pure]
+      refine ⟨b', ?_, hinv', hsu, ?_, hol'⟩
+      · match ss, hrun with
+        | [], hrun => exact absurd rfl (hseq [] hmem)
+        | [s], hrun =>
+          simp only [applySeq] at hrun
+          simp only [hrun]
+          rfl
+        | s1 :: s2 :: r, hrun =>
+          simp only [applySeq, bind, Except.bind] at hrun
+          cases hl : applySubtable.loop (if isLigature x then GP.BASE_GLYPH else 0) (ligId x) c 0 (s1 :: s2 :: r) with
+          | error e => rw [hl] at hrun; cases hrun
+          | ok c1 =>
+            rw [hl] at hrun
+            simp only [pure, Except.pure] at hrun
+            simp only [hl]
+            exact congrArg (fun z => z.map (fun c' => (c', true))) hrun
+      · rw [ho, hi, hin]
+        simp only [replaceAt, List.map_append, List.map_cons]
+        rw [toG_eq_projG, hm]
+        have dropA : ∀ {α} (A B : List α) (y : α) (o : Nat), A.length = o → (A ++ y :: B).drop (o + 1) = B := by
+          intro α A B y o h; subst h; simp
+        have takeA : ∀ {α} (A B : List α) (y : α) (o : Nat), A.length = o → (A ++ y :: B).take o = A := by
+          intro α A B y o h; subst h; simp
+        have hl : (List.map projG (outP c.buf)).length = c.buf.outLen := by simp [hol]
+        have h1 := takeA (List.map projG (outP c.buf)) (List.map projG R) (projG x) c.buf.outLen hl
+        have h2 := dropA (List.map projG (outP c.buf)) (List.map projG R) (projG x) c.buf.outLen hl
+        rw [h1, h2]
+
+/-! non-vacuity of the step theorem: a separate-output state (two glyphs out, two to come), glyph 1 → 11 2 11 -/
+def exStepBuf : Buf :=
+  { info := [⟨9,1,0,0,0⟩, ⟨9,1,0,0,0⟩, ⟨1,1,2,GP.BASE_GLYPH,0⟩, ⟨3,1,3,0,0⟩], out := [⟨7,1,0,0,0⟩, ⟨8,1,1,0,0⟩, {}, {}],
+    idx := 2, len := 4, outLen := 2, haveOutput := true, sepOut := true }
+example : Inv exStepBuf := ⟨by decide, by decide, by decide, by decide, by decide, by decide⟩
+example : inP exStepBuf = [⟨1,1,2,GP.BASE_GLYPH,0⟩, ⟨3,1,3,0,0⟩] := by decide
+example : (match applySubtable (recurseAt MAX_NESTING_LEVEL) true { exMultiCtx with buf := exStepBuf } (.multiple [1, 3] [[11, 2, 11], [5]]) with
+    | .ok (c', ok) => (ok, (outP c'.buf ++ inP c'.buf).map (·.gid), c'.buf.outLen) == (true, [7, 8, 11, 2, 11, 3], 5)
+    | .error _ => false) = true := by decide
+
+/-! the budget hypothesis is not idle: the same text with `max_len = 5` (final string: 8 glyphs) — `make_room_for` refuses,
+    the buffer is marked unsuccessful and `sync` throws the output away -/
+example : (match applyString { exMultiCtx with buf := { exMultiCtx.buf with maxLen := 5 } } exMultiLookup 4 with
+    | .ok c' => (c'.buf.successful, (c'.buf.info.take c'.buf.len).map (·.gid)) == (false, [1, 2, 1, 3])
     | .error _ => false) = true := by decide
 
 end RbModel.Gsub
